@@ -577,3 +577,10 @@ M("C21", "emu-sv: default evaluation times leak to observables with their own ti
 M("C14", "twin: evaluation-time filter written with early returns", "twin",
   [(IMPL, "        is_observable_eval_time = (\n            times is not None\n            and self.config.is_time_in_evaluation_times(t, times, tol=tolerance)\n        )\n",
     "        if times is not None:\n            return self.config.is_time_in_evaluation_times(t, times, tol=tolerance)\n        is_observable_eval_time = False\n")])
+SCBF = "emu_sv/custom_callback_implementations.py"
+M("C13", "density-matrix variance from the state-vector shortcut", "kill",
+  [(SCBF, "    h_squared_dense_mat = hamiltonian.expect(\n        DensityMatrix(h_dense_matrix, gpu=gpu)\n    )  # tr(ρH²)", "    h_squared_dense_mat = torch.vdot(h_dense_matrix.flatten(), h_dense_matrix.flatten()).real")], "OBSDEF")
+M("C02", "fetching the interaction matrix also stores it", "kill",
+  [(IMPL, "            matrix = matrix[self.well_prepared_qubits_filter, :][\n                :, self.well_prepared_qubits_filter\n            ]\n\n        return matrix", "            matrix = matrix[self.well_prepared_qubits_filter, :][\n                :, self.well_prepared_qubits_filter\n            ]\n\n        self.current_interaction_matrix = matrix\n        return matrix")], "INTERACT-refresh")
+M("C18", "jump search starts only below a margin", "kill",
+  [(IMPL, "            if self.norm_gap_before_jump < 0:", "            if self.norm_gap_before_jump < -self.config.precision:")], "JUMP-path")
